@@ -424,8 +424,18 @@ spif_objpair_comp(spif_objpair_t self, spif_obj_t other)
 spif_objpair_t
 spif_objpair_dup(spif_objpair_t self)
 {
+    spif_objpair_t tmp;
+
     ASSERT_RVAL(!SPIF_OBJPAIR_ISNULL(self), (spif_objpair_t) NULL);
-    return spif_objpair_new_from_both(self->key, self->value);
+    tmp = spif_objpair_new();
+    REQUIRE_RVAL(!SPIF_OBJPAIR_ISNULL(tmp), (spif_objpair_t) NULL);
+    if (!SPIF_OBJ_ISNULL(self->key)) {
+        tmp->key = SPIF_OBJ_DUP(self->key);
+    }
+    if (!SPIF_OBJ_ISNULL(self->value)) {
+        tmp->value = SPIF_OBJ_DUP(self->value);
+    }
+    return tmp;
 }
 
 /**
